@@ -128,6 +128,11 @@ func remoteReadAt(client *http.Client, url string, p []byte, off int64) (n int, 
 		return 0, err
 	}
 	defer resp.Body.Close()
+	if resp.StatusCode != http.StatusPartialContent {
+		// anything but 206 means the body is not the requested range
+		// (an error page, or the whole file from a server that ignores Range).
+		return 0, fmt.Errorf("unexpected status code: %d", resp.StatusCode)
+	}
 	{
 		n, err := io.ReadFull(resp.Body, p)
 		if err != nil {
